@@ -45,6 +45,16 @@ def cases(draw, tier):
             p = list(draw(st.permutations(list(range(n)))))
             tree = dict(tree, a=gen.enc(a[p]))
     # badly scaled inputs: every float payload of the tree multiplied by a power of ten (factorisations are scale covariant)
+    if draw(st.integers(1, 8)) == 1:
+        # block diagonal of three or more blocks in which equal-sized dense blocks are NOT adjacent (a, b, a[, c]);
+        # real and complex blocks mixed, optional multiplicities
+        a, b = g.integer(1, 3), g.integer(1, 4)
+        mk = (lambda m: g.t_pd(m, 0)) if fn == "cholesky" else (lambda m: g.t_inv(m, 0))
+        blocks = [g._dense_like((g.pd_matrix if fn == "cholesky" else g.dd_matrix)(a, g.dtype()), g.dtype(("f8", "c16")), kinds=("dense", )), mk(b),
+                  g._dense_like((g.pd_matrix if fn == "cholesky" else g.dd_matrix)(a, "f8"), "f8", kinds=("dense", ))]
+        if g.boolean():
+            blocks.append(mk(g.integer(1, 3)))
+        tree = {"k": "bd", "ch": blocks, "mult": [g.integer(1, 2) for _ in blocks] if g.boolean() else None}
     # graded rows (plu): row i of every dense leaf multiplied by 10^e_i, e_i in -5..5 (partial pivoting is normwise stable)
     grade = [draw(st.integers(-5, 5)) for _ in range(6)] if fn == "plu" and draw(st.integers(1, 4)) == 1 else None
     return {"fn": fn, "tree": tree, "scale_exp": draw(st.sampled_from([0, 0, 0, -12, -6, 6, -20])), "row_grade": grade}
